@@ -110,6 +110,26 @@ type refServer struct {
 	cur     *stream // the most recently opened stream: server-issued frames go there
 	issued  int     // session ids handed out so far
 	evN     int
+
+	announce  func(sid string) string // legacy, target pass: the endpoint event data for a session ("": msgPath?sessionId=sid)
+	announced []string                // legacy: every endpoint event data sent
+}
+
+func (s *refServer) announcements() []string {
+	s.mu.Lock()
+	defer s.mu.Unlock()
+	return append([]string{}, s.announced...)
+}
+
+func (s *refServer) endpointFor(sid string) string {
+	ep := s.msgPath + "?sessionId=" + sid
+	if s.announce != nil {
+		ep = s.announce(sid)
+	}
+	s.mu.Lock()
+	s.announced = append(s.announced, ep)
+	s.mu.Unlock()
+	return ep
 }
 
 // issue hands out a fresh session id for the request rec.
@@ -413,7 +433,7 @@ func (s *refServer) serveStream(w http.ResponseWriter, r *http.Request, rec *srv
 	s.cur = st // before the endpoint event: the client's first POST may overtake the bookkeeping below
 	s.mu.Unlock()
 	if s.client == clLegacy {
-		_, _ = io.WriteString(w, "event: endpoint\ndata: "+s.msgPath+"?sessionId="+s.issue(rec)+"\n\n")
+		_, _ = io.WriteString(w, "event: endpoint\ndata: "+s.endpointFor(s.issue(rec))+"\n\n")
 	}
 	fl.Flush()
 	// status and stream count become visible together: whoever sees the answered GET also sees the open stream
